@@ -29,8 +29,8 @@ def Ops.spec : Ops where
 /-- `"SigEd25519 no Ed25519 collisions"` -/
 def dom2Prefix : List UInt8 := "SigEd25519 no Ed25519 collisions".toUTF8.toList
 
-/-- RFC 8032 `dom2(f, c)`.  The length octet is `len(c) mod 256`; callers that follow the RFC
-  reject `len(c) > 255` beforehand. -/
+/-- RFC 8032 `dom2(f, c)`, defined for `len(c) ≤ 255`; all callers reject longer contexts
+  beforehand (the length octet here would be `len(c) mod 256`). -/
 def dom2 (f : UInt8) (c : List UInt8) : List UInt8 :=
   dom2Prefix ++ [f, UInt8.ofNat c.length] ++ c
 
@@ -110,12 +110,13 @@ def verifyCoreWith (ops : Ops) (legacy strict : Bool) (dom vk m sig : List UInt8
 def verifyWith (ops : Ops) (legacy strict : Bool) (vk msg sig : List UInt8) : Bool :=
   verifyCoreWith ops legacy strict [] vk msg sig
 
-/-- `verify_prehashed[_strict]`.  NOTE: for contexts longer than 255 octets dalek only has a
-  `debug_assert!`; this models the RELEASE behaviour, where the length octet is `len mod 256`
-  (`c.len() as u8`) and verification proceeds. -/
+/-- `verify_prehashed[_strict]`: a context longer than 255 octets is rejected (as in signing and
+  in RFC 8032, where `dom2` is only defined for `len(c) ≤ 255`). -/
 def verifyPhWith (ops : Ops) (legacy strict : Bool) (vk msg : List UInt8) (ctx : Option (List UInt8))
     (sig : List UInt8) : Bool :=
-  verifyCoreWith ops legacy strict (dom2 1 (ctx.getD [])) vk (sha512 msg) sig
+  let c := ctx.getD []
+  if c.length > 255 then false
+  else verifyCoreWith ops legacy strict (dom2 1 c) vk (sha512 msg) sig
 
 /-- One term of the batch equation: `[S]B - R - [k]A = O` (as points, so a non-canonical
   encoding of `R` is compared after decompression). `none` = malformed input. -/
